@@ -515,6 +515,57 @@ def impl_flat(case):
     return [1, out]
 
 
+def impl_flat_late(case):
+    """impl_flat on a machine that is RECONFIGURED after events have been processed: case['late'] = (k, {event: r})
+    - the last r transitions of each named event are added (add_transition, in definition order) only after the
+    k-th call of the history; an event all of whose transitions are late does not exist before."""
+    import copy
+    world = World(case['env'], case['machine']['send'])
+    world.state_of = state_int
+    world.perform = lambda a: None
+    cname = case.get('cls', 'Machine')
+    k_late, late = case['late']
+    c1 = copy.deepcopy(case)
+    held = []
+    evs = []
+    for e, ts in c1['machine']['events']:
+        r = late.get(e, late.get(str(e), 0))
+        keep, rest = (ts[:len(ts) - r], ts[len(ts) - r:]) if r else (ts, [])
+        held += [(e, t) for t in rest]
+        if keep:
+            evs.append((e, keep))
+    c1['machine']['events'] = evs
+    machine, model = build_machine(c1, world, cls=get_class(cname), extra_kwargs=class_kwargs(cname))
+    world.model_ids[id(model)] = case.get('model', 0)
+    world.current_model = model
+    R = world.recorder
+    out = []
+    for j, (k, e, a) in enumerate(case['history']):
+        if j == k_late:
+            for ev, t in held:
+                machine.add_transition('e%d' % ev, 's%d' % t['src'], None if t['dst'] is None else 's%d' % t['dst'],
+                                       conditions=[R('cond', c) for c, tg in t['conds'] if tg],
+                                       unless=[R('unless', c) for c, tg in t['conds'] if not tg],
+                                       before=[R('before', c) for c in t['before']],
+                                       after=[R('after', c) for c in t['after']],
+                                       prepare=[R('prepare', c) for c in t['prepare']])
+        tok = Token(a)
+        world.items = []
+        name = 'e%d' % e
+        try:
+            if k == 0:
+                r = model.trigger(name, tok, k=tok)
+            elif k == 1:
+                r = model.may_trigger(name, tok, k=tok)
+            else:
+                r = getattr(model, name)(tok, k=tok)
+            res = [0, bool(r)]
+        except BaseException as ex:  # noqa
+            res = [1, classify_exc(ex)]
+        out.append([world.items, res, state_int(model)])
+    return [1, out]
+
+
 def trim_flat(case):
     """at most one callback per list and one check per transition: the gathered stages of the asyncio engine then
     have nothing to interleave and it runs exactly the callbacks of the synchronous one"""
